@@ -448,7 +448,10 @@ class ServerKeys(PartialEvent):
         msg_params = self('msg_params')
         if not msg_params or self('is_playing'):
             synth_lib = self('synth_lib')
-            desc = synth_lib.at(self('instrument'))
+            try:
+                desc = synth_lib.at(self('instrument'))
+            except KeyError:
+                desc = None  # Not in the library, use the default parameters.
             if desc is None:
                 self['msg_params'] = self._default_msg_params()
                 return self['msg_params']
